@@ -24,9 +24,34 @@ type c12Extra struct {
 }
 
 var (
-	c12FeeMu sync.Mutex
-	c12Fee   = map[byte]uint64{} // measured fee per journal opcode, must be one constant
+	c12FeeOnce sync.Once
+	c12Fee     = map[byte]uint64{} // fee per journal opcode measured by the reference probe
 )
+
+// c12RefFees executes every journal opcode once (well-formed operands, fork
+// Frontier, top-level frame) and returns the fee each one charged.
+func c12RefFees() map[byte]uint64 {
+	c12FeeOnce.Do(func() {
+		a := NewAsm()
+		c := &codeGen{a: a}
+		for _, k := range []*jFamKey{jTopValue[0], jTopRef[0], jNested[0], jNested[1], jNested[2], jNested[3]} {
+			c.registerKey(k)
+			c.journalChange(k)
+		}
+		a.Op(STOP)
+		sc := &Scenario{Fork: "Frontier"}
+		sc.Accounts = []Account{{Addr: ContractAddrs[0], Nonce: 1, Code: a.Bytes()}, {Addr: EOAAddr, Balance: hexU64(1 << 40), Nonce: 1}}
+		sc.Invs = []Invocation{{Kind: "call", Origin: EOAAddr, Caller: EOAAddr, To: ContractAddrs[0], Gas: 1_000_000, JP: true}}
+		r := RunArtela(sc, ArtelaOpts{Debug: true})
+		for i := range r.Rec.Evs {
+			e := &r.Rec.Evs[i]
+			if e.K == EvStep && e.Op >= RSVJNAL && e.Op <= VRJNAL && e.Err == "" {
+				c12Fee[e.Op] = e.Cost
+			}
+		}
+	})
+	return c12Fee
+}
 
 func replaceSites(sc *Scenario, sites map[common.Address][]JSite, repl func(code []byte, s JSite)) *Scenario {
 	out := sc.Clone()
@@ -163,13 +188,11 @@ func checkC12(sc *Scenario, st *Stats) *Violation {
 		if e.Cost == 0 {
 			return violf("fee/zero", "journal instruction %02x charged no gas", e.Op)
 		}
-		c12FeeMu.Lock()
-		if f, ok := c12Fee[e.Op]; ok && f != e.Cost {
-			c12FeeMu.Unlock()
-			return violf("fee/not-constant", "journal instruction %02x charged %d here (fork %s) and %d elsewhere", e.Op, e.Cost, sc.Fork, f)
+		// one constant per opcode: compare with the fee measured by a fixed reference
+		// probe (all eight opcodes, Frontier, top-level frame) - reproducible on replay
+		if f, ok := c12RefFees()[e.Op]; ok && f != e.Cost {
+			return violf("fee/not-constant", "journal instruction %02x charged %d here (fork %s, depth %d, static %v), %d in the reference probe", e.Op, e.Cost, sc.Fork, e.Depth, fl != nil && fl.Owner[i] != nil && fl.Owner[i].Static, f)
 		}
-		c12Fee[e.Op] = e.Cost
-		c12FeeMu.Unlock()
 		executed++
 		feeSum += e.Cost
 		for _, s := range ex.Sites[e.CodeAddr] {
